@@ -275,6 +275,12 @@ def run(tier):
             case = {'writer': 'SIDD', 'shapes': shapes, 'pixel_type': pt, 'row_limit': row_limit, 'target': target}
             seen.add(('SIDD', pt, nim, row_limit is not None, target))
             metas = [sargen.small_sidd(r, c, pt) for r, c in shapes]
+            # every product image gets its own corner coordinates (shifted by whole degrees), so that corners taken from the wrong image show
+            icps = []
+            for k_im, m in enumerate(metas):
+                icp = m.GeoData.ImageCorners.get_array(dtype='float64') + numpy.array([1.5 * k_im, -2.25 * k_im])
+                m.GeoData.ImageCorners = icp
+                icps.append(icp)
             datas = [sargen.sidd_pixels(rng, r, c, pt) for r, c in shapes]
             try:
                 buf, det = sargen.write_sidd(metas, datas, target, tmpdir, row_limit=row_limit)
@@ -282,7 +288,28 @@ def run(tier):
                 fails.append({'kind': 'write', 'msg': f'SIDD write raised {type(e).__name__}: {e}', 'case': case})
                 continue
             stats['files'] = stats.get('files', 0) + 1
-            check_file(buf, shapes, fails, 'SIDD', case)
+            summ = check_file(buf, shapes, fails, 'SIDD', case)
+            if summ is not None:
+                try:
+                    groups = nitfparse.reassemble(summ['images'])
+                    for k_im, g in enumerate(groups[:len(icps)]):
+                        bad = None
+                        for (a, b, c0, c1, i) in g['segments']:
+                            im = summ['images'][i]
+                            if 'IGEOLO' not in im:
+                                continue
+                            got = igeolo_corners(im['IGEOLO'])
+                            wants = [expected_corners(icps[k_im], g['rows'], a, b, True), expected_corners(icps[k_im], g['rows'], a, b, False)]
+                            okv = [all(abs(glat - w[0]) <= 1.5 / 3600 and abs(glon - w[1]) <= 1.5 / 3600 for (glat, glon), w in zip(got, wv)) for wv in wants]
+                            if not any(okv):
+                                bad = (i, a, b, got, wants[0])
+                                break
+                        if bad:
+                            i, a, b, got, want = bad
+                            fails.append({'kind': 'igeolo', 'msg': f'SIDD: IGEOLO of segment {i} (product image {k_im}, rows {a}:{b} of {g["rows"]}) is {got}, the corners of that image interpolate to '
+                                                                   f'{[tuple(map(float, x)) for x in want]}', 'case': case})
+                except nitfparse.NitfError:
+                    pass
         for k in range(30 if tier == 'quick' else 300):
             general_case(rng, tmpdir, fails, stats, seen, drv, jobs)
     finally:
